@@ -400,3 +400,40 @@ def inline_union_cycle(schemas):
                 return True
         return False
     return any(reaches(n, n, set()) for n in schemas)
+
+
+# ---- C10: round trip of recursive documents through unions (declaration order = matching order) ----
+RT_KINDS = ["rec", "recArr", "recOpt", "loose", "strict", "closed"]
+
+
+def rt_member(union, name, kind):
+    """one object member of the union `union`; member names carry the member's name so that the members of one
+    union never share a member name"""
+    n = fld(name)
+    u = {"$ref": REF + union}
+    if kind == "rec":        # the specific recursive alternative: a required operator and two operands
+        return {"type": "object", "required": ["op_" + n], "properties": {"op_" + n: {"type": "string"}, "left_" + n: u, "right_" + n: u}}
+    if kind == "recArr":     # recursion through an array
+        return {"type": "object", "required": ["all_" + n], "properties": {"all_" + n: {"type": "array", "items": u}}}
+    if kind == "recOpt":     # recursive AND permissive: nothing required
+        return {"type": "object", "properties": {"next_" + n: u, "label_" + n: {"type": "string"}}}
+    if kind == "loose":      # permissive leaf: no required member, unknown members allowed
+        return {"type": "object", "properties": {"value_" + n: {"type": "number"}, "unit_" + n: {"type": "string"}}}
+    if kind == "strict":
+        return {"type": "object", "required": ["name_" + n], "properties": {"name_" + n: {"type": "string"}}}
+    if kind == "closed":
+        return {"type": "object", "properties": {"value_" + n: {"type": "number"}, "unit_" + n: {"type": "string"}}, "additionalProperties": False}
+    raise ValueError(kind)
+
+
+def rt_spec(d):
+    """d["rt"] = {"union": U, "kw": "oneOf"|"anyOf", "members": [[name, kind], ...]} (members in SPEC order)"""
+    r = d["rt"]
+    schemas = {}
+    for name, kind in r["members"]:
+        schemas[name] = rt_member(r["union"], name, kind)
+    schemas[r["union"]] = {r["kw"]: [{"$ref": REF + name} for name, _ in r["members"]]}
+    names = [r["union"]] + [m[0] for m in r["members"]]
+    spec = graph_spec(names, [], names)
+    spec["components"]["schemas"] = schemas
+    return spec
